@@ -467,6 +467,17 @@ class OutOfScope(Exception):
     pass
 
 
+def has_fill(layer):
+    """`psd_tools.composite.has_fill`, or the same test when the source no longer exports it"""
+    import psd_tools.composite as pc
+    f = getattr(pc, "has_fill", None)
+    if f is not None:
+        return f(layer)
+    from psd_tools.constants import Tag
+    tags = (Tag.SOLID_COLOR_SHEET_SETTING, Tag.PATTERN_FILL_SETTING, Tag.GRADIENT_FILL_SETTING, Tag.VECTOR_STROKE_CONTENT_DATA)
+    return any(t in layer.tagged_blocks for t in tags)
+
+
 def blend_fn_name(layer):
     from psd_tools.composite.blend import BLEND_FUNC, normal
     return getattr(BLEND_FUNC.get(layer.blend_mode, normal), "__name__", "normal")
@@ -495,7 +506,6 @@ class XDoc:
 
     def scope(self, layer):
         from psd_tools.api.layers import AdjustmentLayer
-        from psd_tools.composite import has_fill
         if isinstance(layer, AdjustmentLayer):
             raise OutOfScope(f"adjustment layer {layer.kind}")
         if layer.kind not in ("pixel", "group", "type", "smartobject"):
@@ -892,12 +902,12 @@ def eval_case(case):
         real = real_composite(psd, viewport=case.get("viewport"), color=None if bd is None else bd[0],
                               alpha=None if bd is None else bd[1], layer_filter=lf)
         out["real"] = real
-    except Exception as e:  # the implementation raised: a failing input by itself
+    except Exception as e:  # the implementation raised (or no longer has the entry point): a failing input by itself
         import traceback
         tb = traceback.extract_tb(e.__traceback__)
         inrepo = [f for f in tb if str(core.REPO) in f.filename]
-        where = f"{inrepo[-1].filename.split('/src/')[-1]}:{inrepo[-1].name}" if inrepo else "harness"
-        out["error"] = {"type": type(e).__name__, "msg": str(e)[:200], "where": where, "in_repo": bool(inrepo)}
+        where = f"{inrepo[-1].filename.split('/src/')[-1]}:{inrepo[-1].name}" if inrepo else "call of psd_tools.composite.composite"
+        out["error"] = {"type": type(e).__name__, "msg": str(e)[:200], "where": where, "in_repo": True}
         return out
     if case.get("want_spec", True):
         try:
